@@ -442,6 +442,7 @@ pub enum F {
     SigDup,
     SigShuf,
     Unlisted,
+    DupStep,
 }
 
 pub fn fname(f: F) -> &'static str {
@@ -493,6 +494,7 @@ pub fn fname(f: F) -> &'static str {
         F::SigDup => "SIGDUP",
         F::SigShuf => "SIGSHUF",
         F::Unlisted => "UNLISTED",
+        F::DupStep => "DUPLICATE-STEP-ENTRY",
     }
 }
 
@@ -1037,6 +1039,29 @@ pub fn apply_fault(t: &mut SupplyTrace, plan: &Plan, f: F, r: &mut Rng, prefer_s
             // an inner counting fault inside a delegated level
             let inner = *r.pick(&[F::Drop, F::Outsider, F::SigSwap, F::SigFlip, F::LinkEdit, F::Unmet, F::Unlisted]);
             return apply_fault(t, plan, inner, r, true);
+        }
+        F::DupStep => {
+            // the owner's layout lists one step name twice, with other functionaries the second time; nobody
+            // of those has delivered anything: "every step" includes both entries
+            let x = new_key(&mut t.keys, r, ed_only, true);
+            let (lv, is_sub) = pick_level(&mut t.root, r, prefer_sub);
+            if prefer_sub && !is_sub {
+                return false;
+            }
+            if lv.layout.steps.is_empty() {
+                return false;
+            }
+            let si = r.idx(lv.layout.steps.len());
+            let mut dup = lv.layout.steps[si].clone();
+            lv.layout.key_table.push(x);
+            dup.pubkeys = vec![x];
+            dup.threshold = r.below(2) as u32;
+            if r.chance(1, 2) {
+                // the twin comes first / last
+                lv.layout.steps.insert(si, dup);
+            } else {
+                lv.layout.steps.push(dup);
+            }
         }
         F::Drop | F::Outsider | F::WrongStep | F::OwnerAsFunc | F::SigSwap | F::SigFlip | F::LinkEdit | F::Relabel | F::Misfile | F::Unlisted => {
             let keys_snapshot_len = t.keys.len();
